@@ -173,6 +173,7 @@ def run_check(pid, tier, seed, replay=None):
     def case_json(c):
         return {"elt": c.elt, "line": c.line, "meta": c.meta, "family": c.family}
     seen_keys = set()
+    downgraded = set()      # cases whose oracle failure matched an open known finding
     for kind, desc, c in violations:
         key = mod.finding_key(c, desc, decoded.get(c.cid)) if hasattr(mod, "finding_key") else None
         match = [e for e in kf["open"] if e["property"] == pid and key is not None and e["key"] == key]
@@ -180,6 +181,7 @@ def run_check(pid, tier, seed, replay=None):
             if key not in seen_keys:
                 seen_keys.add(key)
                 known_lines.append("KNOWN-FINDING: property=%s %s" % (pid, match[0]["text"]))
+            downgraded.add(id(c))
             continue
         if reported < 5:
             payload = {"property": pid, "what": desc, "case": case_json(c),
@@ -191,7 +193,9 @@ def run_check(pid, tier, seed, replay=None):
         reported += 1
         exit_code = 1
     # open findings whose committed witness no longer fails are not printed; those that do are (above).
-    vio_cases = set(id(c) for _, _, c in violations)
+    # a disagreement between model and implementation is "explained" only by a REPORTED violation on the same case;
+    # a case that merely matched a known-finding key keeps its tie obligation (a mutation cannot hide behind the key)
+    vio_cases = set(id(c) for _, _, c in violations if id(c) not in downgraded)
     unexplained_tie = [(c, d, m) for (c, d, m) in tie_fail if id(c) not in vio_cases]
     if exit_code == 0 and (unexplained_tie or coq_err or proof_broken):
         # the property is no longer shown to hold, and the search found no failing input
